@@ -12,6 +12,7 @@ def embed_flat(K, L, diag):
 
 
 def run(ctx):
+    gen.INTEGRAL[0] = True          # real-typed weights are integer-valued here: how fractional weights are rounded is C08's subject
     ctx.trusted = ['Coq 8.16.1 kernel; axioms: the standard library\'s real-number axioms, as printed below',
                    'correspondence K-UPD on PAIRED states (the same memberships; diagonal tensor vs its embedding) for both tensor types and K-LIK, vs the extracted float model, bit for bit',
                    'binary64: adding +0 and multiplying by 0 are exact, so the two code paths are expected to agree to the last bit except for the different summation nesting; the oracle uses the property\'s 1e-10 relative tolerance and demands exact zeros off the diagonal']
